@@ -567,6 +567,13 @@ func (ex *Exec) applyContract(v ssa.Value, fc *FuncContract, cname string, names
 	}
 	if ex.pass == 2 {
 		vc.calledContracts[cname]++
+		if os.Getenv("ZVC_PATHCANARY") != "" {
+			// diagnostic: after assuming the callee's postconditions the path must
+			// still be satisfiable (contradictory contracts make everything after provable)
+			o := ex.oblig("canary", "after-call."+cname, sn, instr.Pos(), fmt.Sprintf("(not %s)", g), []string{ex.prop})
+			o.Canary = true
+			o.Diag = true
+		}
 	}
 }
 
